@@ -196,6 +196,35 @@ def decode_row(mode: int, n: int) -> str:
     return _decode(mode, n)
 
 
+def _decode_pending(mode, n):
+    # the row is still pending when the input ends (no erase / carriage return / further line after it)
+    if mode == 0:
+        body = "00:00:01:00\t9420 9470 " + _words(n) + " 942f\n"
+    elif mode == 1:
+        body = "00:00:01:00\t9425 9470 c162 94ad\n\n00:00:03:00\t9470 " + _words(n) + "\n"
+    else:
+        body = "00:00:01:00\t9429 9470 " + _words(n) + "\n"
+    try:
+        cs = SCCReader().read("Scenarist_SCC V1.0\n\n" + body)
+    except CaptionLineLengthError:
+        return "" if 2 * n > 32 else "spurious length error"
+    if 2 * n > 32:
+        return "long line returned silently"
+    for c in cs.get_captions("en-US"):
+        for ln in c.get_text().split("\n"):
+            if len(ln) > 32:
+                return "long line in result"
+    return ""
+
+
+def decode_row_pending(mode: int, n: int) -> str:
+    """
+    pre: 0 <= mode < 3 and 15 <= n <= 18
+    post: _ == ""
+    """
+    return _decode_pending(mode, n)
+
+
 def _decode_midrow(mode, n1, n2):
     # a row of 2*n1 characters, a mid-row italics code (one cell), 2*n2 characters
     words = _words(n1) + " 91ae " + _words(n2)
